@@ -180,9 +180,16 @@ func mustReject(f []node, o optList) (bool, string) {
 	var fa facts
 	scan(f, false, &fa)
 	r := route(o)
+	// an option is unknown if its type is not an extension option at all, or if the route the
+	// transaction takes does not define it (eth route: EthereumTx; EIP-712 route: Web3Tx; Cosmos
+	// route: DynamicFeeTx)
+	known := map[string]string{"eth": "eth", "eip712": "web3", "cosmos": "dyn"}[r]
 	for _, c := range o.crit {
 		if c == "unknownURL" || c == "unknownMsg" {
 			return true, "unknown-extension-option"
+		}
+		if c != known {
+			return true, "extension-option-unknown-to-route"
 		}
 	}
 	if r != "eth" && (fa.ethTop || fa.ethUnderExec) {
@@ -330,7 +337,18 @@ func (f *fixture) buildTx(forest []node, o optList) (bz []byte, how string, err 
 				crit[i] = world.MustAny(&haqqtypes.ExtensionOptionsWeb3Tx{FeePayer: w.Addrs[f.S].String(), TypedDataChainID: w.EIP155().Uint64()})
 			}
 		}
-		spec := world.CosmosSpec{Key: w.Keys[f.S], Msgs: msgs, Gas: 500000, ExtOpts: crit, NonCrit: non}
+		// envelope as close to acceptable as the content allows: gas limit and fee are the sums over
+		// the Ethereum messages (what the eth route's basic validation demands), no signatures
+		gas := uint64(0)
+		for _, m := range msgs {
+			if em, ok := m.(*evmtypes.MsgEthereumTx); ok {
+				gas += em.GetGas()
+			}
+		}
+		if gas == 0 {
+			gas = 500000
+		}
+		spec := world.CosmosSpec{Key: w.Keys[f.S], Msgs: msgs, Gas: gas, ExtOpts: crit, NonCrit: non}
 		bz, err = w.UnsignedTx(spec)
 		how = "eth-unsigned"
 	case web3 && len(o.crit) == 1 && !b.raw:
